@@ -204,6 +204,9 @@ func cmdCheck(argv []string) int {
 		var retry []*Obligation
 		for _, o := range r.Obls {
 			if !o.Cover && o.Result != "unsat" && o.Result != "sat" {
+				if isSpecifiedNotProved(vd, id, o.Name) {
+					continue // written, never discharged on the unchanged tree, not claimed
+				}
 				o.Result = ""
 				retry = append(retry, o)
 			}
@@ -243,12 +246,10 @@ func cmdCheck(argv []string) int {
 			case kf != nil && kf.Status == "known":
 				knownLines = append(knownLines, fmt.Sprintf("KNOWN-FINDING: property=%s %s: %s", id, o.Name, kf.What))
 			default:
-				if !inLedger[o.Name] && len(ledger) > 0 && o.Result != "sat" && !updateLedger {
+				if o.Result != "sat" && isSpecifiedNotProved(vd, id, o.Name) {
 					// never proved on the unchanged tree either: specified, not proved, not claimed
-					if isSpecifiedNotProved(vd, id, o.Name) {
-						specifiedNotProved = append(specifiedNotProved, o.Name)
-						continue
-					}
+					specifiedNotProved = append(specifiedNotProved, o.Name)
+					continue
 				}
 				nObl++
 				reason := "obligation fails: solver found a counterexample"
